@@ -84,6 +84,8 @@ def ann_kind(text: str | None) -> object:
     return "localv"
 
 
+ATT: dict[str, str] = {}   # the ATT_* constants of aird._common, resolved reflectively in Analysis.load()
+
 SELF_CLASSES = {"_filters:ActiveFilters", "_semantic:FactorySelector"}   # other classes of the package are diagram-side objects
 EXT_RETURNS = {"helpers.xpath_fetch_unique": "xml", "helpers.xtype_of": "localv", "helpers.unescape_linked_text": "localv",
                "t.cast": "arg1"}
@@ -108,6 +110,10 @@ class Analysis:
     def load(self):
         if str(common.REPO) not in sys.path:
             sys.path.insert(0, str(common.REPO))
+        common_mod = importlib.import_module(PKG + "._common")
+        for name in dir(common_mod):
+            if name.startswith("ATT_") and isinstance(getattr(common_mod, name), str):
+                ATT[name] = getattr(common_mod, name)
         for suffix in MODULES:
             m = importlib.import_module(PKG + suffix)
             short = "aird" if suffix == "" else suffix.split(".")[-1]
@@ -305,6 +311,8 @@ class FnWalker:
             self.env[target.id] = k
         elif isinstance(target, (ast.Tuple, ast.List)):
             parts = k[1] if isinstance(k, tuple) and k[0] == "tuple" else None
+            if k == "xml":
+                self.eff("xml", "iter", "*", target)
             for i, e in enumerate(target.elts):
                 if parts is not None and i < len(parts):
                     self.bind(e, parts[i])
@@ -318,8 +326,9 @@ class FnWalker:
     def const(node):
         if isinstance(node, ast.Constant):
             return node.value
-        if isinstance(node, ast.Attribute) and node.attr.startswith("ATT_"):
-            return node.attr
+        name = node.attr if isinstance(node, ast.Attribute) else (node.id if isinstance(node, ast.Name) else "")
+        if name.startswith("ATT_"):
+            return ATT.get(name, name)
         return "*"
 
     def elem(self, k):
@@ -536,6 +545,10 @@ class FnWalker:
             if n == "super":
                 return "self"
             if n in BUILTIN_PURE:
+                if n == "len" and argk and argk[0] == "xml":
+                    self.eff("xml", "iter", "*", e)
+                if n == "len" and argk and argk[0] == "attrib":
+                    self.eff("attrib", "iter", "*", e)
                 return "localv"
         fk = self.expr(f)
         if isinstance(f, ast.Name) and f.id in self.env and not (isinstance(fk, tuple) and fk[0] == "fn"):
@@ -734,8 +747,12 @@ class FnWalker:
 
     def e_Compare(self, e):
         self.expr(e.left)
-        for c in e.comparators:
-            self.expr(c)
+        for op, c in zip(e.ops, e.comparators):
+            k = self.expr(c)
+            if isinstance(op, (ast.In, ast.NotIn)) and k == "attrib":
+                self.eff("attrib", "get", self.const(e.left), e)
+            elif isinstance(op, (ast.In, ast.NotIn)) and k == "xml":
+                self.eff("xml", "iter", "*", e)
         return "localv"
 
     def e_BinOp(self, e):
